@@ -22,10 +22,12 @@ variable {K : Type} [Scalar K]
 
 def zeros (m n : Nat) : DMat K := Array.replicate m (Array.replicate n 0)
 
-/-- `for k: for stored (i, v) of row k: A_dot(k, i) = v` on top of `buf` -/
+/-- `for k: for stored (i, v) of row k: A_dot(k, i) += v` on top of `buf` (`=` before the repair of adj.cpp that
+    follows 52e994b / 6d0f7107: coefficients stored with the same column index add up) -/
 def copyRows (buf : DMat K) (p : Problem K) : DMat K :=
   p.rows.mapIdx fun s r =>
-    r.foldl (fun (acc : Array K) (c, v) => acc.setIfInBounds (c - 1) v) (buf.getD s (Array.replicate p.n 0))
+    r.foldl (fun (acc : Array K) (c, v) => acc.setIfInBounds (c - 1) (acc.getD (c - 1) 0 + v))
+      (buf.getD s (Array.replicate p.n 0))
 
 /-- in-place homogenisation (`forwardSubstitution` with the factor of each covariance block, every column
     of `A` and the right-hand side) -/
